@@ -5,6 +5,7 @@
 -/
 import Logg.Model.Tree
 import Logg.Lemmas.TreeLinks
+import Logg.Gen.Facts
 
 namespace Logg.Props.C10
 open Logg
@@ -294,5 +295,12 @@ example :
     t.length = 3 ∧ (t[1]?.map (·.level)) = some 5 ∧ (t[0]?.map (·.level)) = some 3 ∧
     (t[2]?.map (fun n => fmtOf n.bits)) = some .json ∧ (t[0]?.map (fun n => fmtOf n.bits)) = some .color ∧
     rootOf t 3 2 = 0 := by decide
+
+/-- The model changes one node per Set… operation and none per With… operation; that this is how the code
+    works rests on a fact regenerated from the source: every assignment to a per-logger setting (level,
+    format bits, attributes, skip count, writers, time layout and zone mode, context keys, value stringer,
+    owner) goes through the receiver `s` of the method or option it stands in - no statement of the
+    package writes a setting of a logger it merely looked up, created earlier or was handed. -/
+theorem settings_written_through_the_receiver_only : Gen.foreignSettingWrites = [] := by decide
 
 end Logg.Props.C10
